@@ -42,6 +42,8 @@ func (o HOp) String() string {
 		return fmt.Sprintf("[%d,%d] c%d %s(%d,%d)->(%d,%v)", o.Call, o.Ret, o.Client, o.Kind, o.Key, o.Val, o.OutVal, o.OutOK)
 	case "read":
 		return fmt.Sprintf("[%d,%d] c%d read(%d)->(%d,%v) %s", o.Call, o.Ret, o.Client, o.Key, o.OutVal, o.OutOK, o.Note)
+	case "joinhit":
+		return fmt.Sprintf("[%d,%d] c%d get-without-loading(%d)->%d (value of load #%d)", o.Call, o.Ret, o.Client, o.Key, o.OutVal, o.Token)
 	case "compute":
 		return fmt.Sprintf("[%d,%d] c%d compute(%d) saw(%d,%v) %s %d ->(%d,%v)", o.Call, o.Ret, o.Client, o.Key, o.SawOld, o.SawFound, o.Cop, o.Val, o.OutVal, o.OutOK)
 	case "invalidate":
@@ -129,6 +131,11 @@ func regStep(state, input, _ interface{}) (bool, interface{}) {
 			return false, st
 		}
 		return true, regState{false, 0, ""}
+	case "joinhit":
+		// A Get that returned the value of somebody else's load without invoking the loader: either it found the
+		// installed value, or it waited for that load, which hands out its result only after the installing step (or
+		// after a write has cancelled the load). Its interval starts at the loader's exit.
+		return (st.Present && st.Val == in.OutVal) || !hasTok(st.Tokens, in.Token), st
 	case "miss":
 		return !st.Present, st
 	case "begin":
